@@ -397,6 +397,25 @@ func boolResultPaths(p predPath) []struct {
 	if cst, ok := v.(*ssa.Const); ok && cst.Value != nil {
 		return []r{{p.State, cst.Value.String() == "true", true}}
 	}
+	neg := false
+	for {
+		if u, ok := v.(*ssa.UnOp); ok && u.Op == token.NOT {
+			v = u.X
+			neg = !neg
+			continue
+		}
+		break
+	}
+	if neg {
+		// !x: evaluate x and flip the verdicts
+		q := p
+		q.Ret = &ssa.Return{Results: []ssa.Value{v}}
+		inner := boolResultPaths(q)
+		for i := range inner {
+			inner[i].Val = !inner[i].Val
+		}
+		return inner
+	}
 	if _, ok := v.(*ssa.BinOp); ok {
 		var out []r
 		for _, want := range []bool{true, false} {
